@@ -463,7 +463,7 @@ theorem fair1_progress (s : Sys) (a : All iss mt s) (hm : ∀ x, SPACE_FOR_HEADE
 theorem handshake_rounds (hm : ∀ x, SPACE_FOR_HEADERS < (mt x).toNat) (n : Nat) : ∀ (s : Sys), All iss mt s → meas s ≤ n →
     ∃ (rounds : List Nat) (s1 : Sys), rounds.foldlM (fun st k => fairRound k st) s = .ok s1 ∧ PlainRun s s1 ∧
       All iss mt s1 ∧ rk s1 .A = 3 ∧ rk s1 .B = 3 ∧ (∀ y, (s1.side y).submitted = (s.side y).submitted) ∧
-      rounds.length ≤ n := by
+      rounds.length ≤ n ∧ (∀ k ∈ rounds, k = 1) := by
   induction n with
   | zero =>
     intro s a hn
@@ -472,14 +472,19 @@ theorem handshake_rounds (hm : ∀ x, SPACE_FOR_HEADERS < (mt x).toNat) (n : Nat
     have : rk s .A = 3 ∧ rk s .B = 3 := by
       unfold meas at hn
       split at hn <;> omega
-    exact ⟨[], s, rfl, .refl _, a, this.1, this.2, fun _ => rfl, Nat.le_refl _⟩
+    exact ⟨[], s, rfl, .refl _, a, this.1, this.2, fun _ => rfl, Nat.le_refl _, fun k hk => by cases hk⟩
   | succ n ih =>
     intro s a hn
     obtain ⟨s', e1, p1, a', sub1, hpr⟩ := fair1_progress s a hm
     rcases hpr with ⟨h1, h2⟩ | hlt
-    · exact ⟨[], s, rfl, .refl _, a, h1, h2, fun _ => rfl, Nat.zero_le _⟩
-    · obtain ⟨rounds, s1, e2, p2, a1, h1, h2, sub2, hl⟩ := ih s' a' (by omega)
-      refine ⟨1 :: rounds, s1, ?_, p1.trans p2, a1, h1, h2, fun y => (sub2 y).trans (sub1 y), by simp; omega⟩
+    · exact ⟨[], s, rfl, .refl _, a, h1, h2, fun _ => rfl, Nat.zero_le _, fun k hk => by cases hk⟩
+    · obtain ⟨rounds, s1, e2, p2, a1, h1, h2, sub2, hl, hone⟩ := ih s' a' (by omega)
+      refine ⟨1 :: rounds, s1, ?_, p1.trans p2, a1, h1, h2, fun y => (sub2 y).trans (sub1 y), by simp; omega,
+        fun k hk => ?_⟩
+      rotate_left
+      · rcases List.mem_cons.1 hk with rfl | hk
+        · rfl
+        · exact hone k hk
       simp only [List.foldlM, e1, bind, Except.bind]
       exact e2
 
